@@ -43,6 +43,9 @@ type ListFault struct {
 	// SnapshotLate: take the snapshot when the latency has elapsed instead of
 	// when the call starts.
 	SnapshotLate bool
+	// EmptyRV: the returned list carries no resourceVersion (as client-go's fake
+	// clientset does); a Watch without resourceVersion then starts "now".
+	EmptyRV bool
 }
 
 // WatchFault describes the behaviour of one Watch() call / stream.
@@ -364,6 +367,11 @@ func (s *Server) List(ctx context.Context, opts metav1.ListOptions) (runtime.Obj
 	s.mu.Lock()
 	call.RV, call.Snap = rv, snap
 	s.mu.Unlock()
+	if f.EmptyRV {
+		if la, err := meta.ListAccessor(l); err == nil {
+			la.SetResourceVersion("")
+		}
+	}
 	return finish(l, nil)
 }
 
@@ -426,7 +434,7 @@ func (s *Server) Watch(ctx context.Context, opts metav1.ListOptions) (watch.Inte
 		return nil, ErrInjectedWatch
 	}
 
-	from := 0
+	from := -1 // no resourceVersion: start at the most recent state
 	if opts.ResourceVersion != "" {
 		v, err := strconv.Atoi(opts.ResourceVersion)
 		if err != nil {
@@ -437,6 +445,9 @@ func (s *Server) Watch(ctx context.Context, opts metav1.ListOptions) (watch.Inte
 	st := &stream{s: s, call: call, ch: make(chan watch.Event), wake: make(chan struct{}, 1), stopch: make(chan struct{})}
 	s.mu.Lock()
 	// log[i].RV == i+1 : first event with RV > from is log[from]
+	if from < 0 {
+		from = len(s.log)
+	}
 	st.pos = from
 	if st.pos > len(s.log) {
 		st.pos = len(s.log)
